@@ -56,9 +56,51 @@ func bumpLast(s string, up bool) string {
 	return s
 }
 
+// c03InterfaceRoute: the number as exposed by Interface() (the route Object.Map,
+// Array.Interface and the root Interface take) has the Go type the tag documents
+// and the very value the typed accessor returns.
+func (c *Ctx) c03InterfaceRoute(pj *simdjson.ParsedJson, pc *PCase) {
+	pos, err := flatPositions(pj, 64)
+	if err != nil {
+		return
+	}
+	for _, p := range pos {
+		if !p.IsValue || (p.Tag != simdjson.TagInteger && p.Tag != simdjson.TagUint && p.Tag != simdjson.TagFloat) {
+			continue
+		}
+		it := iterAt(pj, p.K)
+		v, ierr := it.Interface()
+		got, want := fmt.Sprintf("%T:%v", v, v), ""
+		if ierr != nil {
+			got = "ERR " + ierr.Error()
+		}
+		it = iterAt(pj, p.K)
+		switch p.Tag {
+		case simdjson.TagInteger:
+			x, _ := it.Int()
+			want = fmt.Sprintf("int64:%v", x)
+		case simdjson.TagUint:
+			x, _ := it.Uint()
+			want = fmt.Sprintf("uint64:%v", x)
+		default:
+			x, _ := it.Float()
+			want = fmt.Sprintf("float64:%v", x)
+			if f, ok := v.(float64); ok && math.Float64bits(f) != math.Float64bits(x) {
+				got = fmt.Sprintf("float64 bits %016x", math.Float64bits(f))
+				want = fmt.Sprintf("float64 bits %016x", math.Float64bits(x))
+			}
+		}
+		c.Ev.Dist("interface-route")
+		if got != want {
+			c.Violate("document", "Interface() exposes the number with another type or value than the typed accessor of the same position", "iface-number",
+				map[string]interface{}{"doc_hex": fmt.Sprintf("%x", pc.Doc), "doc_text": printable(pc.Doc), "stream": pc.Stream, "interface": got, "typed": want})
+		}
+	}
+}
+
 func checkC03(c *Ctx) {
 	r := c.Rng
-	c.Ev.Coverage.Rule = "number literals as array element and as object value; type tag, payload word and float flags read through the API (Type/Int/Uint/FloatFlags) vs the Coq specification num_spec (type cascade + correctly rounded binary64 built on Flocq's division/rounding core), and parseNumber directly vs the model. Streams: N1 exhaustive small grammar; N2 integer boundaries (2^63, 2^64 and neighbours, 19..22-character integers); N3 exact decimal midpoints between adjacent doubles (up to ~770 digits) and their two neighbours, for structured and random doubles; N4 exponent spellings, long fractions, underflow/overflow. non-trivial = literal accepted by the spec; distinct = by literal text"
+	c.Ev.Coverage.Rule = "number literals as array element and as object value; type tag, payload word and float flags read through the API (Type/Int/Uint/FloatFlags, and the same positions through Interface()) vs the Coq specification num_spec (type cascade + correctly rounded binary64 built on Flocq's division/rounding core), and parseNumber directly vs the model. Streams: N1 exhaustive small grammar; N2 integer boundaries (2^63, 2^64 and neighbours, 19..22-character integers); N3 exact decimal midpoints between adjacent doubles (up to ~770 digits) and their two neighbours, for structured and random doubles; N4 exponent spellings, long fractions, underflow/overflow. non-trivial = literal accepted by the spec; distinct = by literal text"
 	flags := ChkVerdict | ChkDump | ChkModel | ChkNoPanic | ChkCopyModes
 	// known finding K3: Go's strconv (decimal.set) keeps 800 digits and loses the
 	// position of the decimal point when the integer part is longer than that
@@ -82,7 +124,13 @@ func checkC03(c *Ctx) {
 	var batch []PCase
 	var lits []string
 	flush := func() {
-		c.CompareParse(batch, flags, 1<<16, nil)
+		c.CompareParse(batch, flags, 1<<16, func(pc *PCase, outs []cfgOut, spec string) {
+			for _, o := range outs {
+				if !o.out.Err && o.copy && o.avx512 == hwAVX512 {
+					c.c03InterfaceRoute(o.out.PJ, pc)
+				}
+			}
+		})
 		batch = batch[:0]
 	}
 	add := func(stream, lit string) {
